@@ -68,7 +68,7 @@ CHECKS = {
          "400/3,000 jobs (import scenarios, random compositions, map-rich recipes, corpus programs) in 3/8 permutations, build-then-render and re-render passes, 3/8 concurrent rounds on 16 goroutines under the race detector, 6/12 fresh processes running the whole list in their own order, 40/400 jobs alone in a fresh process; 600/8,000 sharing sequences (shared statements, a shared signature continued per File, a shared argument slice, a shared name table that must stay unmodified), concurrent Save.",
          TB + " The race detector reports only races that are executed; interleavings are sampled.", "5 C09"),
  "C10": ("fault_enumeration", "runtime monitor: instrumented io.Writer (calls, bytes, programmable full/partial failure), probe nodes that fail mid-render, filesystem snapshots (content hash, mode, mtime, inode) around Save",
-         "For every tree the complete fault x entry-point matrix: formatter error, render error at node i, writer error on write k (reporting 0, half or all bytes written), and for Save: new / existing longer / existing empty file, directory target, missing parent, component is a file, name too long, a private full device, a second Save after the target was changed behind the File's back; for each of 35 list constructs an item whose rendering fails at the first, middle and last position. Trees (real programs, every third damaged, and random compositions) are sampled.",
+         "For every tree the complete fault x entry-point matrix: formatter error, render error at node i, writer error on write k (reporting 0, half or all bytes written), and for Save: new / existing longer / existing empty file, directory target, missing parent, component is a file, name too long, a private full device, a second Save after the target was changed behind the File's back; for each of 35 list constructs an item whose rendering fails at the first, middle and last position. Trees (real programs, every third damaged, and random compositions) are sampled; a size ladder of File/Statement/Group trees with 3 KiB to 520 KiB of output (thorough: to 4.3 MiB), two of them damaged at the very end, drives the large-output paths.",
          TB + " Running as root: an unwritable directory is realised by the other failing targets.", "5 C10"),
 }
 
